@@ -226,28 +226,41 @@ def rule_a(chk: Check, eng: Engine) -> None:
         if not (isinstance(lp.iter, ast.Name) and lp.iter.id in init.params()):
             continue
         st = lp.body[0] if len(lp.body) == 1 else None
-        if not isinstance(st, ast.If):
+        # the classification as a list of arms (description, body, line) and a default body: an if/elif chain or a `match` on the loop variable
+        arms: list[tuple[str, list[ast.stmt], int]] = []
+        default: list[ast.stmt] = []
+        if isinstance(st, ast.If):
+            cur: Optional[ast.stmt] = st
+            while isinstance(cur, ast.If):
+                arms.append((short(cur.test), cur.body, cur.lineno))
+                if len(cur.orelse) == 1 and isinstance(cur.orelse[0], ast.If):
+                    cur = cur.orelse[0]
+                else:
+                    default = cur.orelse
+                    cur = None
+        elif isinstance(st, ast.Match) and isinstance(lp.target, ast.Name) and isinstance(st.subject, ast.Name) and st.subject.id == lp.target.id:
+            for case in st.cases:
+                irrefutable = case.guard is None and isinstance(case.pattern, ast.MatchAs) and case.pattern.pattern is None
+                if irrefutable:
+                    default = case.body
+                    break  # later cases are unreachable
+                arms.append(("case " + short(case.pattern) + (" if " + short(case.guard) if case.guard is not None else ""), case.body, case.pattern.lineno))
+        else:
             chk.bad("R02-a", eng.relfile(init), lp.lineno, init.fq, "classification loop is not a closed if/elif chain",
                     "a constraint may be dropped silently", keyparts="classification-shape")
             done = True
             continue
-        cur: Optional[ast.stmt] = st
         lists: list[str] = []
-        closed = False
-        while isinstance(cur, ast.If):
-            appended = [self_attr(c.func.value) for c in ast.walk(ast.Module(body=cur.body, type_ignores=[]))
+        for desc, body, ln_ in arms:
+            appended = [self_attr(c.func.value) for c in ast.walk(ast.Module(body=body, type_ignores=[]))
                         if isinstance(c, ast.Call) and isinstance(c.func, ast.Attribute) and c.func.attr == "append" and c.args
                         and isinstance(c.args[0], ast.Name) and isinstance(lp.target, ast.Name) and c.args[0].id == lp.target.id]
             if not appended or appended[0] is None:
-                chk.bad("R02-a", eng.relfile(init), cur.lineno, init.fq, f"branch `{short(cur.test)}` stores the constraint nowhere",
-                        "that kind of constraint is never evaluated", keyparts="branch-drops|" + short(cur.test))
+                chk.bad("R02-a", eng.relfile(init), ln_, init.fq, f"branch `{desc}` stores the constraint nowhere",
+                        "that kind of constraint is never evaluated", keyparts="branch-drops|" + desc)
             else:
                 lists.append(appended[0])
-            if len(cur.orelse) == 1 and isinstance(cur.orelse[0], ast.If):
-                cur = cur.orelse[0]
-            else:
-                closed = bool(cur.orelse) and all(isinstance(x, ast.Raise) for x in cur.orelse[-1:])
-                cur = None
+        closed = bool(default) and all(isinstance(x, ast.Raise) for x in default[-1:])
         if closed and len(set(lists)) >= 3:
             chk.ok("R02-a", init.fq, lp.lineno, f"every constraint goes to one of {sorted(set(lists))} or raises")
         elif not closed:
@@ -433,7 +446,7 @@ def rule_d(chk: Check, eng: Engine) -> None:
     gens[api_gen.fq] = api_gen
     clean.add(api_gen.fq)
 
-    def callable_param_clean(f: FuncInfo, pname: str) -> bool:
+    def callable_param_clean(f: FuncInfo, pname: str, depth: int = 0) -> bool:
         """Every call site of f passes a clean generator for parameter pname."""
         ok_any = False
         for caller_fq, sites in cg.sites.items():
@@ -448,6 +461,11 @@ def rule_d(chk: Check, eng: Engine) -> None:
                 if arg is None:
                     continue
                 ok_any = True
+                if isinstance(arg, ast.Name) and depth < 3:
+                    # the caller hands on its own callable parameter: decided at the caller's call sites
+                    caller = cg.funcs.get(caller_fq)
+                    if caller is not None and arg.id in caller.params() and callable_param_clean(caller, arg.id, depth + 1):
+                        continue
                 if not (isinstance(arg, ast.Attribute) and arg.attr == "evaluate_individual"):
                     return False
         return ok_any
@@ -476,10 +494,32 @@ def rule_d(chk: Check, eng: Engine) -> None:
                                 ok = True
                                 continue
                         return False
+                    idx = [i for i, x in enumerate(t.elts) if isinstance(x, ast.Name) and x.id == e.id] if isinstance(t, ast.Tuple) else []
+                    if idx:
+                        # i-th component of the tuple a plain helper returns: clean when every return of the helper puts a clean iterable there
+                        v = n.value
+                        if isinstance(v, ast.Call) and helper_component_clean(f, v, idx[0], depth + 1):
+                            ok = True
+                            continue
+                        return False
                     if isinstance(t, ast.Name) and t.id == e.id:
                         return False
             return ok
         return False
+
+    def helper_component_clean(f: FuncInfo, call: ast.Call, i: int, depth: int) -> bool:
+        tgs, _how = cg.resolve_call(f, call)
+        hs = [cg.funcs[t] for t in tgs if t in cg.funcs]
+        if not hs or any(h.is_generator() for h in hs):
+            return False
+        for h in hs:
+            rets = [r for r in walk_local(h.node) if isinstance(r, ast.Return)]
+            if not rets:
+                return False
+            for r in rets:
+                if not (isinstance(r.value, ast.Tuple) and i < len(r.value.elts) and clean_iterable(h, r.value.elts[i], depth)):
+                    return False
+        return True
 
     def clean_value(f: FuncInfo, e: ast.AST) -> bool:
         if f.fq in base_clean:
